@@ -108,10 +108,10 @@ func (s *signer) digest(e *Elem, script []byte, sigBytes []byte) ([]byte, error)
 	switch svc {
 	case 0:
 		code := s.legacyCode(script, cs, sigBytes)
-		return txscript.CalcSignatureHash(code, ht, tx, 0)
+		return txscript.CalcSignatureHash(code, ht, tx, s.sp.ctx.Idx)
 	case 1:
 		hc := txscript.NewTxSigHashes(tx, fetcher)
-		return txscript.CalcWitnessSigHash(script[s.codeStart(cs):], hc, ht, tx, 0, s.sp.amount)
+		return txscript.CalcWitnessSigHash(script[s.codeStart(cs):], hc, ht, tx, s.sp.ctx.Idx, s.sp.amount)
 	case 2, 5:
 		hc := txscript.NewTxSigHashes(tx, fetcher)
 		leaf := txscript.NewBaseTapLeaf(script)
@@ -133,7 +133,7 @@ func (s *signer) digest(e *Elem, script []byte, sigBytes []byte) ([]byte, error)
 			h := sha256.Sum256([]byte("undefined taproot hash type"))
 			return h[:], nil
 		}
-		return txscript.CalcTapscriptSignaturehash(hc, ht, tx, 0, fetcher, leaf, opts...)
+		return txscript.CalcTapscriptSignaturehash(hc, ht, tx, s.sp.ctx.Idx, fetcher, leaf, opts...)
 	case 3:
 		hc := txscript.NewTxSigHashes(tx, fetcher)
 		if e.B[0] != 0 && !validTapHashType(e.B[0]) {
@@ -142,7 +142,7 @@ func (s *signer) digest(e *Elem, script []byte, sigBytes []byte) ([]byte, error)
 		}
 		// (a key path signature committing to an annex, code 4, cannot be built
 		// with the exported API: such elements are never valid)
-		return txscript.CalcTaprootSignatureHash(hc, ht, tx, 0, fetcher)
+		return txscript.CalcTaprootSignatureHash(hc, ht, tx, s.sp.ctx.Idx, fetcher)
 	case 4:
 		h := sha256.Sum256([]byte("key path signature with annex is not supported by the binder"))
 		return h[:], nil
@@ -158,9 +158,63 @@ func validTapHashType(ht int) bool {
 	return false
 }
 
+// shapeBody returns the malformed / degenerate DER bodies of ScriptVM.tla
+// ShapeBody (without the hash type byte).
+func shapeBody(cls int) ([]byte, error) {
+	switch cls {
+	case 10:
+		return []byte{0x30, 0x04, 0x02, 0x01, 0x01, 0x02}, nil
+	case 11:
+		b := []byte{0x30, 0x47, 0x02, 0x23, 0x00, 0x00, 0x00}
+		b = append(b, bytes.Repeat([]byte{0x11}, 32)...)
+		b = append(b, 0x02, 0x20)
+		return append(b, bytes.Repeat([]byte{0x11}, 32)...), nil
+	case 12:
+		return []byte{0x31, 0x06, 0x02, 0x01, 0x01, 0x02, 0x01, 0x01}, nil
+	case 13:
+		return []byte{0x30, 0x07, 0x02, 0x01, 0x01, 0x02, 0x01, 0x01}, nil
+	case 14:
+		return []byte{0x30, 0x06, 0x03, 0x01, 0x01, 0x02, 0x01, 0x01}, nil
+	case 15:
+		return []byte{0x30, 0x06, 0x02, 0x00, 0x02, 0x02, 0x01, 0x01}, nil
+	case 16:
+		return []byte{0x30, 0x06, 0x02, 0x01, 0x81, 0x02, 0x01, 0x01}, nil
+	case 17:
+		return []byte{0x30, 0x07, 0x02, 0x02, 0x00, 0x01, 0x02, 0x01, 0x01}, nil
+	case 18:
+		return []byte{0x30, 0x06, 0x02, 0x01, 0x01, 0x03, 0x01, 0x01}, nil
+	case 19:
+		return []byte{0x30, 0x06, 0x02, 0x02, 0x01, 0x01, 0x02, 0x00}, nil
+	case 20:
+		return []byte{0x30, 0x06, 0x02, 0x01, 0x01, 0x02, 0x01, 0x81}, nil
+	case 21:
+		return []byte{0x30, 0x07, 0x02, 0x01, 0x01, 0x02, 0x02, 0x00, 0x01}, nil
+	case 22:
+		return []byte{0x30, 0x06, 0x02, 0x03, 0x01, 0x01, 0x01, 0x02}, nil
+	case 23:
+		return []byte{0x30, 0x06, 0x02, 0x05, 0x01, 0x01, 0x01, 0x01}, nil
+	case 24:
+		return []byte{0x30, 0x06, 0x02, 0x01, 0x01, 0x02, 0x02, 0x01}, nil
+	case 25:
+		return []byte{0x30, 0x06, 0x02, 0x01, 0x01, 0x02, 0x00, 0x01}, nil
+	case 26:
+		return []byte{0x30, 0x06, 0x02, 0xff, 0x01, 0x01, 0x01, 0x01}, nil
+	case 27:
+		return []byte{0x30, 0x06, 0x02, 0x01, 0x01, 0x02, 0x01, 0x01}, nil
+	}
+	return nil, fmt.Errorf("unknown signature shape class %d", cls)
+}
+
 // make produces the signature bytes of element e over digest.
 func (s *signer) make(e *Elem, digest []byte) ([]byte, error) {
 	ht, cls := e.B[0], e.B[1]
+	if cls >= 10 && cls < 64 {
+		b, err := shapeBody(cls)
+		if err != nil {
+			return nil, err
+		}
+		return append(append([]byte{}, b...), byte(ht)), nil
+	}
 	var priv = s.b.w.key(e.K)
 	if e.K == "TAP" {
 		if s.tapPriv == nil {
